@@ -231,9 +231,10 @@ def construction(report, db, cg, M, P):
             cases.append((proto, proto if proto in P.supported
                           else 'ValueError'))
     nbad = 0
+    cenv = closure_env(F, h)
     for arg, want in cases:
         try:
-            got = F.call_func(FuncVal(h, closure=Env(h.module)), [arg], {},
+            got = F.call_func(FuncVal(h, closure=cenv), [arg], {},
                               h.node, Env(h.module))
         except FoldRaise as e:
             got = e.exc_type
@@ -246,6 +247,38 @@ def construction(report, db, cg, M, P):
                     R, 'helper:value:%r' % (arg,), h.path, h.node,
                     h.qualname, '%s(%r) folds to %r, expected %r'
                     % (h.name, arg, got, want))
+
+
+def closure_env(F, h):
+    """Folding environment of a nested helper: the module's names plus the
+    enclosing function's locals the helper reads, when those are assigned
+    once, at the top level of the enclosing body, from an expression over
+    module-level names (a table of readers, a constant)."""
+    env = Env(h.module)
+    outer = getattr(h, 'outer', None)
+    if outer is None or isinstance(outer.node, ast.Lambda):
+        return env
+    local = set(h.params)
+    for x in ast.walk(h.node):
+        if isinstance(x, ast.Name) and isinstance(x.ctx, ast.Store):
+            local.add(x.id)
+    free = {x.id for x in ast.walk(h.node) if isinstance(x, ast.Name)
+            and isinstance(x.ctx, ast.Load)} - local
+    for st in outer.node.body:
+        if isinstance(st, ast.Assign) and len(st.targets) == 1 and \
+                isinstance(st.targets[0], ast.Name) and \
+                st.targets[0].id in free:
+            nm = st.targets[0].id
+            stores = [y for y in ast.walk(outer.node)
+                      if isinstance(y, ast.Name) and y.id == nm
+                      and isinstance(y.ctx, ast.Store)]
+            if len(stores) != 1:
+                continue
+            try:
+                env.vars[nm] = F.eval(st.value, Env(h.module))
+            except (AnalysisError, FoldRaise):
+                pass
+    return env
 
 
 def does_nothing(S, f):
